@@ -190,6 +190,8 @@ def _build_family(fam, st):
     binary = os.path.join(BUILD, "model_" + fam)
     vos = glob.glob(os.path.join(COQ, "Base", "*.vo")) + glob.glob(os.path.join(COQ, "Gen", "*.vo")) + \
         glob.glob(os.path.join(COQ, "Model", "*.vo")) + glob.glob(os.path.join(COQ, "Spec", "*.vo"))
+    if "Proofs." in open(src).read():       # the layout family takes definitions from proof files
+        vos += glob.glob(os.path.join(COQ, "Proofs", "*.vo"))
     driver = os.path.join(VERIF, "ocaml", "driver.ml")
     newest = _deps_mtime(vos + [src, driver])
     # which .vo does this family need?  If any of its transitive deps failed, coqc will fail below.
@@ -221,8 +223,9 @@ def _family_broken(fam, st):
         return False
     src = open(os.path.join(COQ, "Extract", fam + ".v")).read()
     needed = re.findall(r"(?:Model|Spec|Base|Gen)\.\w+", src)
-    # conservative: broken if any unbuilt file is a Model/Spec/Base/Gen file
-    return any(f.split("/")[0] in ("Model", "Spec", "Base", "Gen") for f in st.coq_unbuilt) and bool(needed)
+    # conservative: broken if any unbuilt file is a Model/Spec/Base/Gen file (or, for a family that reads proof files, any file)
+    dirs = ("Model", "Spec", "Base", "Gen") + (("Proofs",) if "Proofs." in src else ())
+    return any(f.split("/")[0] in dirs for f in st.coq_unbuilt) and bool(needed)
 
 
 def _build_harness(st):
